@@ -19,8 +19,95 @@ def edge_key(x: str, y: str, tag: str = "e") -> tuple:
     return (tag, x, y)
 
 
+# --- locating the DiGraph and its edge attributes in the real objects (robust against renamed private names) ------
+
+def _is_graph(v) -> bool:
+    return isinstance(v, (nx.DiGraph, SymDiGraph))
+
+
+def digraph_slot(obj, depth: int = 2):
+    """(owner, attribute name) of the networkx DiGraph (or its stand-in) reachable from ``obj`` through instance
+    attributes; today that is ``NetworkxGraph._graph`` / ``EvaluableArchitectureGraph._graph._graph``."""
+    seen = set()
+    level = [obj]
+    for _ in range(depth + 1):
+        nxt = []
+        for o in level:
+            if id(o) in seen or not hasattr(o, "__dict__"):
+                continue
+            seen.add(id(o))
+            for k, v in vars(o).items():
+                if _is_graph(v):
+                    return o, k
+            nxt.extend(v for v in vars(o).values() if hasattr(v, "__dict__") and type(v).__module__.startswith("pytestarch"))
+        level = nxt
+    raise AttributeError(f"no networkx DiGraph reachable from {type(obj).__name__}")
+
+
+def inner_digraph(obj):
+    o, k = digraph_slot(obj)
+    return getattr(o, k)
+
+
+def set_inner_digraph(obj, g) -> None:
+    o, k = digraph_slot(obj)
+    setattr(o, k, g)
+
+
+_EDGE_DATA: dict = {}
+
+
+def edge_data_templates() -> tuple[dict, dict, str]:
+    """(data dict of a hierarchy edge, data dict of an import edge, name of the boolean attribute telling them apart),
+    read off a two-module graph built by the real constructor (today: {'inherits': True} / {'inherits': False})."""
+    if not _EDGE_DATA:
+        from pytestarch.eval_structure.networkxgraph import NetworkxGraph
+        from pytestarch.eval_structure_generation.file_import.import_types import AbsoluteImport
+
+        g = inner_digraph(NetworkxGraph(["p", "p.a", "q"], [AbsoluteImport("p.a", "q")]))
+        hier = dict(g.get_edge_data("p", "p.a"))
+        imp = dict(g.get_edge_data("p.a", "q"))
+        keys = [k for k in hier if k in imp and bool(hier[k]) != bool(imp[k])]
+        if not keys:
+            raise AttributeError("hierarchy and import edges carry no distinguishing attribute")
+        _EDGE_DATA.update(hier=hier, imp=imp, key=keys[0], hier_val=hier[keys[0]])
+    return _EDGE_DATA["hier"], _EDGE_DATA["imp"], _EDGE_DATA["key"]
+
+
+def is_hier_data(d: dict) -> bool:
+    edge_data_templates()
+    return d.get(_EDGE_DATA["key"]) == _EDGE_DATA["hier_val"]
+
+
+def split_edges(g) -> tuple[set, set]:
+    """(import edges, hierarchy edges) of a concrete DiGraph."""
+    imp, hier = set(), set()
+    for u, v, d in g.edges(data=True):
+        (hier if is_hier_data(d) else imp).add((u, v))
+    return imp, hier
+
+
 class MutationAttempt(Exception):
     pass
+
+
+class _AdjView:
+    """Lazy stand-in for DiGraph.succ / .pred / .adj: node -> {neighbour: edge data}."""
+
+    def __init__(self, g, nb, data) -> None:
+        self._g, self._nb, self._data = g, nb, data
+
+    def __getitem__(self, n):
+        return {v: self._data(n, v) for v in self._nb(n)}
+
+    def __contains__(self, n) -> bool:
+        return n in self._g
+
+    def __iter__(self):
+        return iter(self._g)
+
+    def __len__(self) -> int:
+        return len(self._g)
 
 
 class SymDiGraph:
@@ -38,7 +125,8 @@ class SymDiGraph:
         self._tag = tag
         self._nodes = list(real.nodes)
         self._nodeset = set(self._nodes)
-        self._hier = {(u, v) for u, v, d in real.edges(data=True) if d.get("inherits")}
+        self._hier_data, self._imp_data, _ = edge_data_templates()
+        self._hier = {(u, v) for u, v, d in real.edges(data=True) if is_hier_data(d)}
         self._novar = set(no_var) | self._hier
         self._edge_fn = edge_fn
         order = sorted(self._nodes)
@@ -78,10 +166,58 @@ class SymDiGraph:
 
     def get_edge_data(self, u: str, v: str, default=None):
         if (u, v) in self._hier:
-            return {"inherits": True}
+            return dict(self._hier_data)
         if u in self._nodeset and v in self._nodeset and u != v and self._imp(u, v):
-            return {"inherits": False}
+            return dict(self._imp_data)
         return default
+
+    # further read-only parts of the DiGraph API (not used by the pinned code; a refactoring may use them)
+    def neighbors(self, n: str):
+        return self.successors(n)
+
+    def has_successor(self, u, v) -> bool:
+        return self.has_edge(u, v)
+
+    def has_predecessor(self, u, v) -> bool:
+        return self.has_edge(v, u)
+
+    def out_edges(self, n=None, data=False):
+        ns = self._nodes if n is None else ([n] if isinstance(n, str) else list(n))
+        return [((u, v, self.get_edge_data(u, v)) if data else (u, v)) for u in ns for v in self.successors(u)]
+
+    def in_edges(self, n=None, data=False):
+        ns = self._nodes if n is None else ([n] if isinstance(n, str) else list(n))
+        return [((u, v, self.get_edge_data(u, v)) if data else (u, v)) for v in ns for u in self.predecessors(v)]
+
+    def edges(self, n=None, data=False):
+        return self.out_edges(n, data)
+
+    def __getitem__(self, n: str):
+        return {v: self.get_edge_data(n, v) for v in self.successors(n)}
+
+    @property
+    def succ(self):
+        return _AdjView(self, self.successors, lambda u, v: self.get_edge_data(u, v))
+
+    adj = _adj = _succ = succ
+
+    @property
+    def pred(self):
+        return _AdjView(self, self.predecessors, lambda u, v: self.get_edge_data(v, u))
+
+    _pred = pred
+
+    def in_degree(self, n: str) -> int:
+        return len(self.predecessors(n))
+
+    def out_degree(self, n: str) -> int:
+        return len(self.successors(n))
+
+    def is_directed(self) -> bool:
+        return True
+
+    def is_multigraph(self) -> bool:
+        return False
 
     def has_node(self, n) -> bool:
         return n in self._nodeset
@@ -123,8 +259,8 @@ def symbolic_architecture(all_modules: list[str], tag: str = "e", edge_fn=None, 
     from pytestarch.eval_structure.networkxgraph import NetworkxGraph
 
     g = NetworkxGraph(list(all_modules), [], level_limit)
-    sym = SymDiGraph(g._graph, tag=tag, edge_fn=edge_fn, no_var=no_var)
-    g._graph = sym
+    sym = SymDiGraph(inner_digraph(g), tag=tag, edge_fn=edge_fn, no_var=no_var)
+    set_inner_digraph(g, sym)
     return EvaluableArchitectureGraph(g), sym
 
 
